@@ -364,7 +364,7 @@ def layout(ctx: Any) -> List[Ob]:
     from .c05 import lifetime as _lifetime
 
     for o in _lifetime.fn(ctx):
-        if o.construct == 'get_remaining_ttl':
+        if o.construct == 'get_remaining_ttl' and not any(x.construct == 'get_remaining_ttl' for x in obs):
             o.rule = R
             o.statement += ' -- this is the value the TTL field carries for a timed answer'
             obs.append(o)
